@@ -228,6 +228,41 @@ theorem hop_guard_exact (l c : UInt8) :
       (hopIncrement Cfg.fixed l c).1.toNat = c.toNat + 1 ∧ c.toNat + 1 ≤ l.toNat) :=
   ⟨Lemmas.hopIncrement_exceeded_iff l c, Lemmas.hopIncrement_ok l c⟩
 
+/-! ### The hop-count arithmetic of the model IS the code's
+
+`Dtn7.Gen.C06.Go.HopCountBlock.{IsExceeded,Increment,Decrement}` are produced on every run by the
+Go→Lean translator (`extract/golean.go`) from `pkg/bpv7/extension_block_hop_count.go`; the theorems
+below are therefore re-checked against what the code says now, for every `uint8` pair. -/
+
+open Dtn7.Gen.C06.Go in
+/-- The translated `Increment` is the model's `hopIncrement` (the repaired variant). -/
+theorem go_increment_is_model (l c : UInt8) :
+    HopCountBlock.Increment ⟨l, c⟩ =
+      (⟨l, (hopIncrement Cfg.fixed l c).1⟩, (hopIncrement Cfg.fixed l c).2) := by
+  unfold HopCountBlock.Increment HopCountBlock.IsExceeded hopIncrement
+  by_cases h : c = 255
+  · simp [h, Cfg.fixed]
+  · simp [h, Cfg.fixed]
+
+open Dtn7.Gen.C06.Go in
+/-- The translated `IsExceeded` and `Decrement` are the model's. -/
+theorem go_isExceeded_decrement_are_model (l c : UInt8) :
+    HopCountBlock.IsExceeded ⟨l, c⟩ = hopIsExceeded l c ∧
+    HopCountBlock.Decrement ⟨l, c⟩ = ⟨l, hopDecrement c⟩ := by
+  constructor <;> rfl
+
+open Dtn7.Gen.C06.Go in
+/-- **Stated on the translated code itself**: over the whole 0..255 × 0..255 square `Increment`
+reports "exceeded" exactly when `count + 1 > limit` in ℕ, never wraps, and otherwise stores
+`count + 1`; the limit is untouched. -/
+theorem go_increment_exact (l c : UInt8) :
+    ((HopCountBlock.Increment ⟨l, c⟩).2 = true ↔ c.toNat + 1 > l.toNat) ∧
+    ((HopCountBlock.Increment ⟨l, c⟩).2 = false →
+      (HopCountBlock.Increment ⟨l, c⟩).1.Count.toNat = c.toNat + 1 ∧ c.toNat + 1 ≤ l.toNat) ∧
+    (HopCountBlock.Increment ⟨l, c⟩).1.Limit = l := by
+  rw [go_increment_is_model]
+  exact ⟨(hop_guard_exact l c).1, (hop_guard_exact l c).2, rfl⟩
+
 /-- **A transmitted hop count never exceeds its limit.** -/
 theorem hop_never_exceeds (known : List Nat) (node : Bytes) (acc : Bundle) (first : Nat × Nat)
     (evs : List (Nat × Nat)) (hv : AtMostOne acc) (hw : NoWrap acc (first :: evs))
